@@ -205,4 +205,71 @@ theorem Enf_all (n : Nat) (al : Tz.AbsLookup) (t fs : Int) (hn1 : 1 ≤ n) (hn :
   · enf_case [37, 69, 49, 52, 102], 4
   · enf_case [37, 69, 49, 53, 102], 4
 
+/-! ### the format "%Y-%m-%d%ET%H:%M:%E*S%E*z" -/
+
+def fullFmt : Bytes :=
+  [37, 89, 45, 37, 109, 45, 37, 100, 37, 69, 84, 37, 72, 58, 37, 77, 58, 37, 69, 42, 83, 37, 69, 42, 122]
+
+theorem full_ofString : ofString "%Y-%m-%d%ET%H:%M:%E*S%E*z" = fullFmt := by decide +kernel
+
+/-- what the loop emits for the format -/
+def fullSegs (al : Tz.AbsLookup) (fs : Int) : List Seg :=
+  [.lit [], .lit (format64 0 al.cs.y), .lit [45], .lit [], .lit (format02d al.cs.m).val, .lit [45], .lit [],
+   .lit (format02d al.cs.d).val, .lit [], .lit [84], .lit [], .lit (format02d al.cs.hh).val, .lit [58], .lit [],
+   .lit (format02d al.cs.mm).val, .lit [58], .lit [], .lit (starS al fs).val, .lit [],
+   .lit (formatOffset al.offset [58, 42]).val]
+
+theorem full_loop_val (al : Tz.AbsLookup) (tm : Tm) (t fs : Int) :
+    (formatLoop fullFmt.toArray al tm t fs 27 {}).val = fullSegs al fs := by
+  rw [loop_pct_simple fullFmt.toArray al tm t fs 26 [] 0 (by decide) (by decide) (by decide) (by decide), Ck.bindv]
+  rw [loop_lit_simple fullFmt.toArray al tm t fs 25 _ 2 (by decide) (by decide) (by decide) (by decide) (by decide), Ck.bindv]
+  rw [loop_lit_simple fullFmt.toArray al tm t fs 24 _ 5 (by decide) (by decide) (by decide) (by decide) (by decide), Ck.bindv]
+  rw [loop_pct_ET fullFmt.toArray al tm t fs 23 _ 8 (by decide) (by decide) (by decide) (by decide)]
+  rw [loop_pct_simple fullFmt.toArray al tm t fs 22 _ 11 (by decide) (by decide) (by decide) (by decide), Ck.bindv]
+  rw [loop_lit_simple fullFmt.toArray al tm t fs 21 _ 13 (by decide) (by decide) (by decide) (by decide) (by decide), Ck.bindv]
+  rw [loop_lit_EstarS fullFmt.toArray al tm t fs 20 _ 16 (by decide) (by decide) (by decide) (by decide) (by decide) (by decide) (by decide),
+    Ck.bindv, Ck.bindv]
+  rw [loop_pct_Estarz fullFmt.toArray al tm t fs 19 _ 21 (by decide) (by decide) (by decide) (by decide) (by decide),
+    Ck.bindv, Ck.bindv]
+  rw [loop_done' fullFmt.toArray al tm t fs 18 _ _ (by decide), Ck.pure_val]
+  simp only [scratch_val, show chAt fullFmt.toArray (0 + 1) = 89 by decide,
+    show chAt fullFmt.toArray 2 = 45 by decide, show chAt fullFmt.toArray (2 + 2) = 109 by decide,
+    show chAt fullFmt.toArray 5 = 45 by decide, show chAt fullFmt.toArray (5 + 2) = 100 by decide,
+    show chAt fullFmt.toArray (11 + 1) = 72 by decide, show chAt fullFmt.toArray 13 = 58 by decide,
+    show chAt fullFmt.toArray (13 + 2) = 77 by decide, show chAt fullFmt.toArray 16 = 58 by decide,
+    simplePiece_Y, simplePiece_m, simplePiece_d, simplePiece_H, simplePiece_M, Ck.bindv, fullSegs,
+    List.nil_append, List.cons_append]
+
+/-- the text `format` writes, piece by piece in the renderers' own terms (the form the parse side
+reads back) -/
+def fullText (al : Tz.AbsLookup) (fs : Int) : Bytes :=
+  format64 0 al.cs.y ++ (45 :: ((format02d al.cs.m).val ++ (45 :: ((format02d al.cs.d).val ++ (84 ::
+    ((format02d al.cs.hh).val ++ (58 :: ((format02d al.cs.mm).val ++ (58 :: ((format02d al.cs.ss).val ++
+      ((if fracStar fs = [] then [] else 46 :: fracStar fs) ++ (formatOffset al.offset [58, 42]).val)))))))))))
+
+theorem full_render (sf : Strftime) (al : Tz.AbsLookup) (t fs : Int) (h0 : 0 ≤ fs) :
+    render sf (formatSegs (ofString "%Y-%m-%d%ET%H:%M:%E*S%E*z") al t fs).val.1
+      (formatSegs (ofString "%Y-%m-%d%ET%H:%M:%E*S%E*z") al t fs).val.2 = fullText al fs := by
+  have hval : (formatSegs fullFmt al t fs).val = ((toTM al).val, fullSegs al fs) := by
+    rw [formatSegs_val]
+    exact congrArg _ (full_loop_val al _ t fs)
+  rw [full_ofString, hval]
+  simp only [render, fullSegs, List.flatMap_cons, List.flatMap_nil, List.nil_append, List.append_nil,
+    starS_val al fs h0, fullText, List.append_assoc, List.cons_append]
+
+/-- the same text in the documented renderings -/
+theorem fullText_spec (al : Tz.AbsLookup) (fs : Int) (hv : Valid al.cs)
+    (ho1 : -90000 < al.offset) (ho2 : al.offset < 90000) :
+    fullText al fs =
+      decInt al.cs.y ++ [45] ++ decPad 2 al.cs.m.toNat ++ [45] ++ decPad 2 al.cs.d.toNat ++ [84] ++
+      decPad 2 al.cs.hh.toNat ++ [58] ++ decPad 2 al.cs.mm.toNat ++ [58] ++ decPad 2 al.cs.ss.toNat ++
+      (if fracStar fs = [] then [] else 46 :: fracStar fs) ++ offHMS al.offset := by
+  obtain ⟨hm1, hm2, hd1, hd2, hh1, hh2, hmm1, hmm2, hs1, hs2⟩ := hv
+  have hdb := daysInMonth_bounds al.cs.y al.cs.m
+  unfold fullText
+  rw [format64_zero, (format02d_spec _ (by omega) (by omega)).2, (format02d_spec _ (by omega) (by omega)).2,
+    (format02d_spec _ hh1 (by omega)).2, (format02d_spec _ hmm1 (by omega)).2,
+    (format02d_spec _ hs1 (by omega)).2, (formatOffset_val _ ho1 ho2).2.2.1]
+  simp only [List.append_assoc, List.cons_append, List.nil_append]
+
 end Cctz.Wr
